@@ -128,6 +128,10 @@ def num_outcome(f, env):
 
 def check_unary(case):
     name, x, how = case['f'], case['x'], case['how']
+    if isinstance(x, int) and abs(x) >= 2 ** 1023 and name not in ('LN', 'LOG10'):
+        # an integer beyond the double range is an argument only where no conversion to a double is needed first (the logarithms take integers
+        # of any size); elsewhere the argument itself is outside what a real-valued function of doubles can be handed
+        raise Skip('argument-beyond-double-range')
     if how == 'text':
         env = Env(vars={'v_x': repr(x)})
     else:
@@ -167,7 +171,8 @@ def unary_classes(c):
 
 # ---------------------------------------------------------------- coercion
 
-SPELLINGS = [('.5', 0.5), ('-.25', -0.25), ('+.5', 0.5), ('+3', 3), ('-4', -4), ('007', 7), ('2.50', 2.5), ('0.125', 0.125), ('12', 12), ('+0.75', 0.75), ('1.5', 1.5), ('-0.5', -0.5), ('.0625', 0.0625), ('10', 10), ('1', 1), ('0', 0), ('-1', -1)]
+SPELLINGS = [('.5', 0.5), ('-.25', -0.25), ('+.5', 0.5), ('+3', 3), ('-4', -4), ('007', 7), ('2.50', 2.5), ('0.125', 0.125), ('12', 12), ('+0.75', 0.75), ('1.5', 1.5), ('-0.5', -0.5), ('.0625', 0.0625), ('10', 10), ('1', 1), ('0', 0), ('-1', -1),
+             ('0.2500000000000000000000000000000000000', 0.25), ('0.1000000000000000055511151231257827021181583404541015625', 0.1), ('2.' + '0' * 60, 2.0), ('0' * 40 + '3', 3), ('-0.5000000000000000000000000000000000000000', -0.5)]      # the length of a spelling is no part of the number
 
 
 def check_coercion(case):
@@ -463,14 +468,15 @@ LAWS = [
              'inside the domain the value equals the 50-digit reference within 1e-9 relative + 1e-12; outside it the outcome is an error; non-trivial = |x| not in {0, 0.5, 1, 2} or text argument or outside the domain'),
     Law('integer_arguments', check_unary, quick=1000, thorough=60000, shards=(4, 8),
         strategy=st.fixed_dictionaries({'f': st.sampled_from(['SQRT', 'ABS', 'LN', 'LOG10', 'ATAN', 'ASINH', 'DEGREES', 'RADIANS', 'ACOSH', 'ACOT']),
-                                        'x': st.one_of(st.integers(2 ** 53, 10 ** 30), st.integers(-10 ** 30, -2 ** 53), st.sampled_from([10 ** 17, 2 ** 53, 2 ** 60 + 1, 3 ** 40, 10 ** 20 - 1, 2 ** 100]), st.integers(0, 1000)),
+                                        'x': st.one_of(st.integers(2 ** 53, 10 ** 30), st.integers(-10 ** 30, -2 ** 53), st.sampled_from([10 ** 17, 2 ** 53, 2 ** 60 + 1, 3 ** 40, 10 ** 20 - 1, 2 ** 100]), st.integers(0, 1000),
+                                                       st.sampled_from([2 ** 1024, 10 ** 400, 2 ** 1023, 7 ** 500])),
                                         'how': st.sampled_from(['var', 'lit', 'text'])}),
         key=lambda c: c['f'], nontrivial=lambda c: abs(c['x']) >= 2 ** 53,
         rule='10 unary functions whose value exists for large arguments x Python integers of 2^53..10^30 (either sign; exact integers such as POWER(10,17) or a long literal produce) and 0..1000, '
              'as variable, literal or text: same criterion as unary_values (1e-9 relative against the 50-digit reference; an error outside the domain)'),
     Law('coercion', check_coercion, quick=1500, thorough=40000, shards=(4, 8),
         strategy=st.fixed_dictionaries({'f': st.sampled_from(UNARY), 'w': st.sampled_from(['text', 'text', 'true', 'false']), 'x': reals(), 'junk': junk_text,
-                                        'sp': st.one_of(st.none(), st.integers(0, 16)), 'lit': st.booleans()}),
+                                        'sp': st.one_of(st.none(), st.integers(0, 21)), 'lit': st.booleans()}),
         classes=lambda c: (('spelling:' + SPELLINGS[c['sp'] % len(SPELLINGS)][0]) if c['w'] == 'text' and c['sp'] is not None else 'w:' + c['w'],),
         required=('spelling:.5', 'spelling:-.25', 'spelling:+3', 'spelling:007', 'w:true', 'w:false'),
         rule='f("x") = f(x) for repr spellings and for 17 other spellings of numbers as text (leading dot, explicit sign, leading/trailing zeros) given as variable or string literal, f(TRUE) = f(1), f(FALSE) = f(0) for every unary function; non-numeric text -> error'),
